@@ -1186,6 +1186,9 @@ _node_map: dict[type, Callable[[Any, Module | Class], Expr]] = {
 
 
 def _build(node: ast.AST, parent: Module | Class, **kwargs: Any) -> Expr:
+    if not isinstance(node, (ast.Tuple, ast.Constant)):
+        # Only the slice itself (a tuple, or a string annotation standing for one) is written without parentheses.
+        kwargs.pop("in_subscript", None)
     return _node_map[type(node)](node, parent, **kwargs)
 
 
